@@ -669,6 +669,16 @@ Verdict check_e(const J& r) {
     v.that(lat2 > lat1 ? ca > 0.998L : ca < -0.998L, "pole end point: azimuth not within 3.6 degrees of the meridional direction");
   }
   vle(v, std::max<L>(0, fabsl((L)Si) - R.c2 * fabsl(R.lam12)), 64 * ecc_factor(e) * EPS * R.c2 * fabsl(R.lam12) + 1e-300L * R.c2, "pole end point: |S12| exceeds the area of the hemispherical lune [m^2]");
+  if (p1 != p2 && fabsl(fabsl(R.lon12) - 180) > 1e-9L) {      // (on opposite meridians the sense is a tie rule: C09.d)
+    // exactly one end point is a pole: the whole longitude change happens at the pole, so the area between the course and
+    // the equator is the lune of that pole's hemisphere, S12 = sign(pole) c2 lam12 (with the displaced pole of the header's
+    // convention, psi ~ 72 instead of infinity, it is smaller by < 2 %): 3 % decides the sign and the order of magnitude
+    // whichever convention is implemented
+    L want = (p2 ? (lat2 > 0 ? 1 : -1) : (lat1 > 0 ? 1 : -1)) * R.c2 * R.lam12;
+    vle(v, fabsl((L)Si - want), 0.03L * R.c2 * fabsl(R.lam12) + 1e-300L * R.c2, "one pole end point: S12 vs the lune of the pole's hemisphere sign(pole) c2 lam12 [m^2]");
+    double s2, a2, S2; rh.Inverse(lat2, lon2, lat1, lon1, s2, a2, S2);
+    vle(v, fabsl((L)S2 + (L)Si), 64 * ecc_factor(e) * EPS * R.c2 * fabsl(R.lam12) + 1e-300L * R.c2, "one pole end point: S12 of the reversed course is not -S12 [m^2]");
+  }
   return v;
 }
 
